@@ -118,7 +118,7 @@ partial def loop (h : IO.FS.Stream) (t : Tabs) : IO Unit := do
     let st : ZipStat := { method := m.toNat?.getD 0, bitFlag := bf.toNat?.getD 0, compSize := cs.toNat?.getD 0,
                           uncompSize := us.toNat?.getD 0, crc32 := crc.toNat?.getD 0 }
     let infl := if inf == "none" then none else some (parseHex inf)
-    let r := zipExtract (fun _ cap => match infl with
+    let r := zipMember (fun _ cap => match infl with
                           | some o => if o.length ≤ cap then some o else none
                           | none => none) missMark st (if tl == "none" then none else some (parseHex tl))
     IO.println (showRes r); loop h {}
